@@ -29,6 +29,7 @@ EXPLANATION = (
     "right / both operands): merged count, survival test, stored count, cost once, size "
     "iff kept. "
     'Round 7: (FRESHSUB, shared with C16-FRESH) a reported score comes from a sub-optimizer without history. '
+    "Round 8 (engine E9): (PUREFNS) the processor's pure leg-arithmetic functions are evaluated on every pair of simplified terms over three indices and compared with the tree's survival rule and cost definitions. "
 )
 ASSUMPTIONS = ("merged appearance count never exceeds the global count",)
 
@@ -858,4 +859,97 @@ def rule_freshsub(ctx):
                         lambda i: "Reusable" in i.construct or "reusable.py" in i.construct, 1)
 
 
-RULES = [rule_freshsub, rule_surv, rule_appear, rule_drop, rule_pre, rule_prelegs, rule_bestpair, rule_report, rule_merge, rule_flops]
+def rule_purefns(ctx):
+    """(engine E9) The lightweight processor's leg arithmetic is a handful of pure functions on sorted lists of
+    (index, count) pairs.  Their source is evaluated by the engine's mini-evaluator on every pair of terms over three
+    indices with counts 0-2 on each side and 0-1 further appearances elsewhere, and compared with the definitions
+    the tree uses: an index survives a merge iff its merged count is below its global count; the operation count is
+    the product of the dimensions of all indices involved, the size that of the survivors; each step-cost function
+    of the optimal finder is its objective's definition and leaves exactly the surviving legs behind."""
+    import itertools
+
+    from ..engine.minieval import Mini, NoEval, Raised
+
+    r = RuleResult("C18-PUREFNS", "the processor's leg arithmetic equals the tree's definitions on a bounded family", 2)
+    m = ctx.p.modules[C.BASIC]
+    names = ("compute_contracted", "compute_simplified", "compute_size", "compute_flops", "compute_con_cost_flops", "compute_con_cost_max",
+             "compute_con_cost_size", "compute_con_cost_write", "compute_con_cost_combo", "compute_con_cost_limit", "is_simplifiable")
+    fs = {g.name: g.node for g in m.all_funcs if g.cls is None and g.name in names}
+    C.require(len(fs) == len(names), f"leg arithmetic functions not found ({sorted(set(names) - set(fs))})")
+    sizes = [2, 3, 5]
+    opts = [(ci, cj, ex) for ci in (0, 1, 2) for cj in (0, 1, 2) for ex in (0, 1)]
+    bad = {}
+    n = 0
+
+    def call(nm, args):
+        return Mini(fs, budget=20000).call(fs[nm], args)
+    try:
+        for combo in itertools.product(opts, repeat=3):
+            if sum(1 for ci, cj, ex in combo if ci + cj) == 0:
+                continue
+            # keep the family moderate: the third index takes four representative patterns
+            if combo[2] not in ((0, 0, 0), (1, 1, 0), (1, 0, 1), (2, 1, 1)):
+                continue
+            app = [max(ci + cj + ex, 1) for ci, cj, ex in combo]
+            # precondition of the pairwise functions: both terms are simplified (no index closed within one term)
+            if any((ci and ci == a_) or (cj and cj == a_) for (ci, cj, ex), a_ in zip(combo, app)):
+                continue
+            n += 1
+            ilegs = [(ix, ci) for ix, (ci, cj, ex) in enumerate(combo) if ci]
+            jlegs = [(ix, cj) for ix, (ci, cj, ex) in enumerate(combo) if cj]
+            merged = [(ix, ci + cj) for ix, (ci, cj, ex) in enumerate(combo) if ci + cj]
+            surv = [(ix, c) for ix, c in merged if c < app[ix]]
+            flops = 1
+            for ix, c in merged:
+                flops *= sizes[ix]
+            size = 1
+            for ix, c in surv:
+                size *= sizes[ix]
+            isc, jsc, fac = 7, 11, 4
+
+            def expect(nm, got, want):
+                if got != want and nm not in bad:
+                    bad[nm] = (ilegs, jlegs, app, got, want)
+            try:
+                expect("compute_contracted", call("compute_contracted", [list(ilegs), list(jlegs), app]), surv)
+                expect("compute_flops", call("compute_flops", [list(ilegs), list(jlegs), sizes]), flops)
+                expect("compute_size", call("compute_size", [list(surv), sizes]), size)
+                # a single term with a repeated / closed index: occurrences listed one by one
+                # (here the closed case is the point: give the first term's indices one more pattern, closed iff ex == 0 on it)
+                app1 = [c + ex for (c, _cj, ex) in combo]
+                flat = sorted([(ix, 1) for ix, c in ilegs for _ in range(c)])
+                simp = [(ix, c) for ix, c in ilegs if c < max(app1[ix], 1)]
+                app1 = [max(a_, 1) for a_ in app1]
+                expect("compute_simplified", call("compute_simplified", [list(flat), app1]), simp)
+                expect("is_simplifiable", bool(call("is_simplifiable", [list(flat), app1])), flat != simp)
+                for nm, want in (("compute_con_cost_flops", isc + jsc + flops), ("compute_con_cost_max", max(isc, jsc, flops)),
+                                 ("compute_con_cost_size", max(isc, jsc, size)), ("compute_con_cost_write", isc + jsc + size)):
+                    tl = list(merged)
+                    expect(nm, call(nm, [tl, app, sizes, isc, jsc]), want)
+                    expect(nm + " (legs left behind)", tl, surv)
+                for nm, want in (("compute_con_cost_combo", isc + jsc + flops + fac * size), ("compute_con_cost_limit", isc + jsc + max(flops, fac * size))):
+                    tl = list(merged)
+                    expect(nm, call(nm, [tl, app, sizes, isc, jsc, fac]), want)
+                    expect(nm + " (legs left behind)", tl, surv)
+            except Raised as e:
+                bad.setdefault("raise", (ilegs, jlegs, app, f"raises ({e.text})", ""))
+            except NoEval:
+                raise
+            except Exception as e:
+                bad.setdefault("raise", (ilegs, jlegs, app, f"raises ({type(e).__name__}: {e})", ""))
+    except NoEval as e:
+        raise AnalysisError(f"leg arithmetic not evaluable by the mini-evaluator ({e})")
+    for nm in names:
+        f = ctx.p.func(C.BASIC, nm)
+        k = ctx.key(f, "C18-PUREFNS")
+        hits = [(kk, v) for kk, v in bad.items() if kk.startswith(nm) or (kk == "raise" and nm == names[0])]
+        if hits:
+            kk, (il, jl, ap, got, want) = hits[0]
+            r.violation(k, f.loc, f"{kk}: for the terms {il} and {jl} with global counts {ap} (dimensions {sizes}) it gives {got}, the definition "
+                        f"gives {want}: the processor's figures differ from the tree's for the same step")
+        else:
+            r.ok(k, f.loc, f"agrees with the definition on {n} pairs of terms")
+    return r
+
+
+RULES = [rule_purefns, rule_freshsub, rule_surv, rule_appear, rule_drop, rule_pre, rule_prelegs, rule_bestpair, rule_report, rule_merge, rule_flops]
